@@ -57,6 +57,18 @@ def r1(ctx):
     fp = ctx.fn(repo.func(MSG + ".Request.parse"))
     for c in method_calls(fp, "read_line"):
         ctx.check("C12.R1", len(c.args) >= 3 and tail(c.args[2]) == "limit_request_line", key(fp, "passes-limit"), site(fp, c), "read_line is called without the configured request-line limit", "limit passed")
+    clamps(ctx, "C12.R1")
+    # ---- field count and field size: evaluated on header blocks around the limits (fields that are dropped by the
+    # underscore policy count and are measured too; continuation lines add to the field's size; 0 = unlimited size)
+    from .c01 import headers_table
+    headers_table(ctx, "C12.R1", "limits")
+
+
+def clamps(ctx, rid="C12.R1"):
+    """the effective limits a parser works with, evaluated from the entries of Request.__init__ / Message.__init__ for
+    configured values around every boundary (negative, 0 = maximum/unlimited, in range, at and above the hard maximum),
+    including the header-block buffer cap, which is computed from the *effective* values"""
+    repo = ctx.repo
     # ---- clamps
     fi = ctx.fn(repo.func(MSG + ".Request.__init__"))
     stop_calls = [n for c, q in repo.calls_in(fi) if q == MSG + ".Message.__init__" for n in nodes_with(fi, c)]
@@ -66,12 +78,12 @@ def r1(ctx):
         outs = ex.run(fi.cfg.entry, {CF + ".limit_request_line": v}, stop=lambda n: n in stop_calls)
         got = set(o.env.get("self.limit_request_line") for o in outs)
         want = spec.MAX_REQUEST_LINE if (v < 0 or v >= spec.MAX_REQUEST_LINE) else v
-        ctx.check("C12.R1", got == {want}, key(fi, "clamp-line|%s" % v), site(fi, text="limit_request_line=%s" % v), "limit_request_line=%s becomes %s, documented: %s" % (v, sorted(map(str, got)), want), "-> %s" % want)
+        ctx.check(rid, got == {want}, key(fi, "clamp-line|%s" % v), site(fi, text="limit_request_line=%s" % v), "limit_request_line=%s becomes %s, documented: %s" % (v, sorted(map(str, got)), want), "-> %s" % want)
     fm = ctx.fn(repo.func(MSG + ".Message.__init__"))
     stop2 = [n for c in method_calls(fm, "parse") for n in nodes_with(fm, c)]
     CF = fm.params[1]
     rows = []
-    for nf in (-1, 0, 100, 32768, 40000):
+    for nf in (-1, 0, 1, 100, 8190, 8191, 20000, 32767, 32768, 32769, 40000):
         for fs in (-1, 0, 100):
             ex = Explorer(fm, tracked=["self.limit_request_fields", "self.limit_request_field_size", "self.max_buffer_headers"])
             outs = ex.run(fm.cfg.entry, {CF + ".limit_request_fields": nf, CF + ".limit_request_field_size": fs, CF + ".is_ssl": False}, stop=lambda n: n in stop2)
@@ -80,13 +92,9 @@ def r1(ctx):
             ws = spec.DEFAULT_MAX_HEADERFIELD_SIZE if fs < 0 else fs
             wb = wf * ((ws or spec.DEFAULT_MAX_HEADERFIELD_SIZE) + 2) + 4
             rows.append({"limit_request_fields": nf, "limit_request_field_size": fs, "effective": sorted(map(str, got)), "required": [wf, ws, wb]})
-            ctx.check("C12.R1", got == {(wf, ws, wb)}, key(fm, "clamp-fields|%s|%s" % (nf, fs)), site(fm, text="limit_request_fields=%s limit_request_field_size=%s" % (nf, fs)),
+            ctx.check(rid, got == {(wf, ws, wb)}, key(fm, "clamp-fields|%s|%s" % (nf, fs)), site(fm, text="limit_request_fields=%s limit_request_field_size=%s" % (nf, fs)),
                       "effective (fields, field size, header buffer cap) = %s, documented: %s" % (sorted(map(str, got)), (wf, ws, wb)), "-> %s" % ((wf, ws, wb),))
-    ctx.table("C12.R1 clamps", rows)
-    # ---- field count and field size: evaluated on header blocks around the limits (fields that are dropped by the
-    # underscore policy count and are measured too; continuation lines add to the field's size; 0 = unlimited size)
-    from .c01 import headers_table
-    headers_table(ctx, "C12.R1", "limits")
+    ctx.table(rid + " clamps", rows)
 
 
 def size_checked(ctx, rid="C12.R1"):
